@@ -137,6 +137,29 @@ def _kw_lower_check():
     return []
 
 
+FILTERS_SHAPE = ("def transform_filters(tagname, attributes, contents, context, bind):\n"
+                 "    proceed, forced = _pop_toggle('auto_filter', attributes, context)\n"
+                 "    filters = context['filters']\n"
+                 "    if not proceed:\n        return contents\n"
+                 "    for fn in filters:\n"
+                 "        want = getattr(fn, 'tags', None)\n"
+                 "        if want and tagname not in want:\n            continue\n"
+                 "        contents = fn(tagname, attributes, contents, context, bind)\n"
+                 "    return contents")
+
+
+def _filters_shape(tree):
+    """pin: `transform_filters` has the statement order `Flatland.C19.transformFiltersF` follows (round h9)"""
+    fn = _find_func(tree, "transform_filters")
+    if fn is None:
+        return ["transform_filters not found"]
+    fn = ast.FunctionDef(name=fn.name, args=fn.args, body=fn.body, decorator_list=[], returns=None, type_comment=None,
+                         lineno=0, col_offset=0)
+    if ast.unparse(ast.fix_missing_locations(fn)) != FILTERS_SHAPE:
+        return ["pin: transform_filters no longer has the shape the model (C19Filters.lean) follows"]
+    return []
+
+
 _CACHE = {}
 
 
@@ -166,6 +189,7 @@ def _extract_c19():
         default_context, auto_tags, transforms = _decorated_tables(generic)
     except (ValueError, SyntaxError, IndexError) as e:
         return problems + ["decorator tables: %s" % e]
+    problems += _filters_shape(generic)
     if transforms != ["transform_name", "transform_value", "transform_domid", "transform_for",
                       "transform_tabindex", "transform_filters"]:
         problems.append("order of _transforms changed: %s" % transforms)
